@@ -33,3 +33,10 @@ UNITS += [
        assumed=["channels <= 2; lpc.c functions by contract (ranges read/written only; float values not used)", "stack budget 1 MiB per alloca request (contracts/common.h)"],
        note="start-of-stream extrapolation for ANY amount of submitted audio (up to 2^28 samples): scratch memory request within the stack budget, lpc ranges inside the buffers, the one-shot flag always set, marks unchanged"),
 ]
+UNITS += [
+  Unit("blk_analysis_wrote", ["C04", "C15"], "lib/block.c", enforce="vorbis_analysis_wrote", loops="block_ana.loops", harness="h_blk_wrote.c", entry="h_blk_wrote",
+       replace=["vorbis_lpc_from_data", "vorbis_lpc_predict", "_preextrapolate_helper", "vorbis_analysis_buffer"],
+       unwindset=["h_blk_wrote.0:3", "vorbis_analysis_wrote.0:3"], reach=4, timeout=900, objbits=8,
+       assumed=["channels <= 2; lpc.c functions, _preextrapolate_helper (own unit) and vorbis_analysis_buffer by contract", "stack budget 1 MiB per alloca request"],
+       note="sample submission: more than the buffer holds is refused and nothing is counted; otherwise exactly vals samples are counted; end of input records the number of real samples as the end mark and appends three long blocks of padding inside the (regrown) rows; start-of-stream extrapolation runs at most once"),
+]
